@@ -1238,6 +1238,29 @@ pub fn run(thorough: bool, mut rng: Rng, mut out: Out) {
             }
         }
     }
+    // F25: a name lookup that never completes (the resolver /etc/resolv.conf points at does not
+    // answer).  tokio resolves names on a blocking thread that cannot be cancelled; the time-out must
+    // bound the establishment all the same, in BOTH APIs.  Only possible where this process can play
+    // the silent resolver: resolv.conf says 127.0.0.1 and UDP port 53 can be bound.
+    let resolv = std::fs::read_to_string("/etc/resolv.conf").unwrap_or_default();
+    let local_dns = resolv.lines().filter(|l| l.trim_start().starts_with("nameserver")).all(|l| l.contains("127.0.0.1")) && resolv.contains("nameserver");
+    match (local_dns, std::net::UdpSocket::bind("127.0.0.1:53")) {
+        (true, Ok(_silent_resolver)) => {
+            for api in [Api::Async, Api::Sync] {
+                let c = Case { url: String::from("ldap://needs-a-dns-lookup.example:389/"), parts: None, starttls: false, timeout: Some(T_MS), stream: Stream::None };
+                let api_word = if api == Api::Async { "async" } else { "sync" };
+                let obs = observe(&w, &c, api);
+                out.case(&format!("slow-resolver {}", api_word), true);
+                out.stat("env.silent-resolver");
+                out.r(
+                    &format!("setup.timeout-bounds-a-name-lookup-that-never-completes {}", api_word),
+                    obs.text.starts_with("timeout") && obs.elapsed_ms <= T_MS + slack_ms(),
+                    &format!("with conn_timeout {} ms and a resolver that never answers: {} after {} ms", T_MS, obs.text, obs.elapsed_ms),
+                );
+            }
+        }
+        _ => out.stat("skipped.silent-resolver-not-available"),
+    }
     let _ = std::fs::remove_dir_all(&w.dir);
     out.finish("URL text (schemes ldap/ldaps/ldapi in both cases, unknown and special schemes; host absent / empty / IPv4 / IPv6 literal / names / unresolvable; port absent / ephemeral / dead / 0 / 65535; socket paths percent-encoded minimally, fully, lower-case hex, with space, non-ASCII, literal %, non-UTF-8, missing, backlog-full; port-bearing and empty ldapi; ~45 free-form and unparsable URLs) x StartTLS on/off x conn_timeout none/50 ms/3 s x stream none / pre-opened TCP to a silent peer / to a refusing peer / UnixStream::pair / Invalid (cloned settings) x LdapConnAsync / LdapConn; corpus of known witnesses first, then a seeded shuffle (quick: a prefix); non-trivial = the URL parses (set-up dispatch runs); distinct by FNV hash of API + URL + settings");
 }
